@@ -33,7 +33,7 @@ ASSUMPTIONS = ["acceptance bands are 6.5 standard errors wide; a wrong factor (2
                "normality of the increments is not part of the statement and is not tested"]
 TIERS = {"quick": dict(runs=160, budget_s=45, shrink=30, min_nontrivial=2),
          "thorough": dict(runs=900, budget_s=900, shrink=60)}
-REQUIRED_PROBES = ["horizontal", "vertical", "vertical_with_advection", "anisotropic", "zero_coefficients", "warm_start_f4"]
+REQUIRED_PROBES = ["horizontal", "vertical", "vertical_with_advection", "nonuniform_metric_cells_changed", "anisotropic", "zero_coefficients", "warm_start_f4"]
 CASE_TIMEOUT = 600
 
 
@@ -65,6 +65,13 @@ def generate(seed: int, tier: str, idx: int) -> dict:
         Dz = 0.0
     depth = 1.0e9
     an = {"dx": dx, "dy": dy, "depth": depth, "size": 1.0e9, "flow": {"kind": "still"}}
+    if kind == "diff" and D and s.chance(0.35):
+        # grid spacing that differs from one column of cells to the next: the random step of a particle is converted
+        # with the spacing of the cell it is in when the step begins
+        an["dx_alt"] = s.pick([2.0, 4.0, 0.5])
+        if s.chance(0.7):       # steps long enough to change cell within a few steps
+            r = 10 ** s.uniform(-0.7, 0.3) * dx
+            D = float(f"{r * r / (2 * dt):.6g}")
     if kind == "diff" and Dz and s.chance(0.4):
         # vertical advection on top of the vertical random walk: the drift is w*dt, the spread is unchanged
         an["w0"] = float(f"{s.pick([-1, 1]) * 10 ** s.uniform(-1, 1) * math.sqrt(2 * Dz / dt):.6g}")
@@ -88,6 +95,8 @@ def features(sc) -> set[str]:
         f.add("anisotropic_metric")
     if sc["analytic"].get("w0"):
         f.add("vertical_advection")
+    if sc["analytic"].get("dx_alt"):
+        f.add("nonuniform_metric")
     return f
 
 
@@ -110,6 +119,10 @@ def base_reductions(sc):
         c = copy.deepcopy(sc)
         c["analytic"].pop("w0")
         yield "no_w", c
+    if sc["analytic"].get("dx_alt"):
+        c = copy.deepcopy(sc)
+        c["analytic"].pop("dx_alt")
+        yield "uniform_metric", c
     if pl["advection"] != "EF":
         c = copy.deepcopy(sc)
         c["plan"]["advection"] = "EF"
@@ -221,6 +234,8 @@ def execute(sc) -> Result:
         sig = {"X": math.sqrt(2 * pl["D"] * dt) / dx, "Y": math.sqrt(2 * pl["D"] * dt) / dy,
                "Z": math.sqrt(2 * pl["Dz"] * dt)}
         drift = {"X": 0.0, "Y": 0.0, "Z": float(sc["analytic"].get("w0", 0.0)) * dt}
+        alt = float(sc["analytic"].get("dx_alt", 0.0))
+        crossed = False
         se_mean = K / math.sqrt(N)
         se_var = K * math.sqrt(2.0 / N)
         se_corr = K / math.sqrt(N)
@@ -233,6 +248,10 @@ def execute(sc) -> Result:
                 continue
             judged += 1
             res.feed(dX[:64], dY[:64], dZ[:64])
+            if alt:
+                # increments in units of the spacing of the start cell, rescaled to the base spacing
+                X0 = X1 - dX
+                dX = dX * np.where((np.round(X0).astype(int) % 2) != 0, alt, 1.0)
             comp = {"X": dX, "Y": dY, "Z": dZ}
             for name, d in comp.items():
                 s_ = sig[name]
@@ -267,6 +286,9 @@ def execute(sc) -> Result:
             if first is not None:
                 t_steps = n + 1
                 for name, P1, P0 in (("X", X1, first[0]), ("Y", Y1, first[1]), ("Z", Z1, first[2])):
+                    if name == "X" and alt:
+                        crossed = crossed or bool((np.round(P1).astype(int) != np.round(P0).astype(int)).mean() > 0.2)
+                        continue        # the cloud does not spread uniformly in grid units on a non-uniform grid
                     if sig[name]:
                         var = float((P1 - P0).var())
                         want = sig[name] ** 2 * t_steps
@@ -285,6 +307,10 @@ def execute(sc) -> Result:
                 res.probes["vertical"] += 1
             if sc["analytic"].get("w0"):
                 res.probes["vertical_with_advection"] += 1
+            if alt:
+                res.probes["nonuniform_metric"] += 1
+                if crossed:
+                    res.probes["nonuniform_metric_cells_changed"] += 1
     finally:
         world.rm_dir(run.dir)
     return res
